@@ -20,7 +20,9 @@ import (
 	"io"
 	"math/big"
 	"net"
+	"net/url"
 	"os"
+	"strings"
 	"sync"
 	"time"
 
@@ -82,6 +84,7 @@ type TargetConn struct {
 	eof    bool
 	err    error
 	done   chan struct{}
+	stop   chan struct{}
 	conn   net.Conn
 	closed bool
 }
@@ -101,8 +104,10 @@ type Target struct {
 	srcN  int
 	srcS  uint64
 	mu    sync.Mutex
-	conns []*TargetConn
-	Addr  string
+	conns   []*TargetConn
+	Addr    string
+	Network string
+	slowMs  int
 }
 
 func payload(seed uint64, n int) []byte {
@@ -124,12 +129,31 @@ func payload(seed uint64, n int) []byte {
 	return b
 }
 
+// Further modes: "unix-noread" (a unix-domain socket service that accepts and never reads: the kernel takes only
+// ~200 KiB, so a stalled reader backs up into the tunnel quickly), "noread" (same over TCP),
+// "slowsink:<ms>" (reads 64 KiB, is busy for <ms>, then reads to the end and closes).
 func NewTarget(mode string) (*Target, error) {
-	ln, err := net.Listen("tcp", "127.0.0.1:0")
+	network, laddr := "tcp", "127.0.0.1:0"
+	if strings.HasPrefix(mode, "unix-") {
+		f, err := os.CreateTemp("", "verif-target-*.sock")
+		if err != nil {
+			return nil, err
+		}
+		laddr = f.Name()
+		f.Close()
+		os.Remove(laddr)
+		network = "unix"
+		mode = strings.TrimPrefix(mode, "unix-")
+	}
+	ln, err := net.Listen(network, laddr)
 	if err != nil {
 		return nil, err
 	}
-	t := &Target{ln: ln, mode: mode, Addr: ln.Addr().String()}
+	t := &Target{ln: ln, mode: mode, Addr: ln.Addr().String(), Network: network}
+	if strings.HasPrefix(mode, "slowsink:") {
+		fmt.Sscanf(mode[9:], "%d", &t.slowMs)
+		t.mode = "slowsink"
+	}
 	if len(mode) > 7 && mode[:7] == "source:" {
 		fmt.Sscanf(mode[7:], "%d:%d", &t.srcN, &t.srcS)
 		t.mode = "source"
@@ -144,7 +168,7 @@ func (t *Target) serve() {
 		if err != nil {
 			return
 		}
-		tc := &TargetConn{hasher: sha256.New(), done: make(chan struct{}), conn: c}
+		tc := &TargetConn{hasher: sha256.New(), done: make(chan struct{}), stop: make(chan struct{}), conn: c}
 		t.mu.Lock()
 		t.conns = append(t.conns, tc)
 		t.mu.Unlock()
@@ -176,8 +200,17 @@ func (t *Target) handle(tc *TargetConn) {
 		}()
 	}
 	buf := make([]byte, 65536)
+	if t.mode == "noread" {
+		<-tc.stop
+		return
+	}
+	first := true
 	for {
 		n, err := c.Read(buf)
+		if t.mode == "slowsink" && first && n > 0 {
+			first = false
+			time.Sleep(time.Duration(t.slowMs) * time.Millisecond)
+		}
 		if n > 0 {
 			tc.mu.Lock()
 			tc.n += n
@@ -220,7 +253,15 @@ func (t *Target) Conns() []*TargetConn {
 func (t *Target) Close() {
 	_ = t.ln.Close()
 	for _, c := range t.Conns() {
+		select {
+		case <-c.stop:
+		default:
+			close(c.stop)
+		}
 		_ = c.conn.Close()
+	}
+	if t.Network == "unix" {
+		_ = os.Remove(t.Addr)
 	}
 }
 
@@ -383,8 +424,12 @@ func NewRig(o RigOpts) (*Rig, error) {
 			return nil, err
 		}
 		r.Targets[n] = t
+		chAddr := addr.MustParseAddress("tcp://" + t.Addr)
+		if t.Network == "unix" {
+			chAddr = addr.ProtoAddress{URL: url.URL{Scheme: "unix", Host: t.Addr}}
+		}
 		channels = append(channels, &server.NetworkChannel{AbstractChannel: server.AbstractChannel{
-			ProtoName: addr.ProtoName{Name: n}, Address: addr.MustParseAddress("tcp://" + t.Addr)}})
+			ProtoName: addr.ProtoName{Name: n}, Address: chAddr}})
 	}
 	withCert := cert.ServerConfig{Config: cert.Config{Certificate: cs.certPEM, PrivateKey: cs.keyPEM}}
 	var srv server.Server
